@@ -216,7 +216,7 @@ fn reader_half<const N: usize, const NV: usize>(t: &[u8], d: u64, lk: usize, lv:
     }
     fix_timestamps(&mut p, lk, lv, second);
     // cut: -1 intact, -2 symbolic, otherwise a concrete truncation length
-    let cut = if cut_mode == -1 { N } else if cut_mode == -2 { t[NV] as usize } else { cut_mode as usize };
+    let cut = if cut_mode == -1 || cut_mode == -4 { N } else if cut_mode == -2 { t[NV] as usize } else { cut_mode as usize };
     vassume!(cut <= N);
     let img = mk(&p, stub_crc);
     let r = ImgReader::<N> { img, len: cut, base: BLOCK - d, pos: BLOCK - d };
@@ -227,6 +227,10 @@ fn reader_half<const N: usize, const NV: usize>(t: &[u8], d: u64, lk: usize, lv:
     let mut got = 0;
     let mut errored = false;
     match it.next() {
+        Ok(Some(kvr)) if cut_mode == -4 => {
+            let _ = kvr;
+            got = 1;
+        }
         Ok(Some(kvr)) => {
             assert!(kvr.key.len() == lk && kvr.timestamp == p[lk] as u64, "first entry: key length and timestamp");
             let mut i = 0;
@@ -252,6 +256,10 @@ fn reader_half<const N: usize, const NV: usize>(t: &[u8], d: u64, lk: usize, lv:
     }
     if got == 1 && second != 0 {
         match it.next() {
+            Ok(Some(kvr)) if cut_mode == -4 => {
+                let _ = kvr;
+                got = 2;
+            }
             Ok(Some(kvr)) => {
                 assert!(kvr.key.len() == 1 && kvr.key[0] == p[lk + 1 + lv] && kvr.timestamp == p[lk + 2 + lv] as u64, "second entry: key and timestamp");
                 if second == 1 {
@@ -272,7 +280,10 @@ fn reader_half<const N: usize, const NV: usize>(t: &[u8], d: u64, lk: usize, lv:
     if cut == N {
         assert!(got == total && !errored, "an intact log yields every appended batch");
     }
-    if !errored {
+    if cut_mode == -4 {
+        assert!(matches!(it.next(), Ok(None)), "after the last batch the log ends");
+    }
+    if !errored && cut_mode != -1 {
         // after the last entry (or the torn tail): end, or an error -- never another entry
         match it.next() {
             Ok(Some(_)) => assert!(false, "the reader invents an entry"),
@@ -280,7 +291,7 @@ fn reader_half<const N: usize, const NV: usize>(t: &[u8], d: u64, lk: usize, lv:
             Err(_) => {}
         }
     }
-    vcover!(cut_mode != -1 || cut == N, "intact image");
+    vcover!(cut_mode > -1 || cut_mode == -2 || cut == N, "intact image");
     vcover!(cut_mode != -2 || (cut < N && errored), "a cut that the reader reports as an error");
     vcover!(cut_mode != -2 || (cut < N && !errored && got < total), "a cut that the reader takes as the end of the log");
     vcover!(cut_mode < 0 || got < total, "the truncated image loses the tail");
@@ -394,6 +405,9 @@ log_cut!(k_batch2_d32_at_boundary, 32, 32, 1, 1, 2, T_BATCH2_D32_LEN, img_batch2
 log_cut!(k_batch2_d32_before_boundary, 31, 32, 1, 1, 2, T_BATCH2_D32_LEN, img_batch2_d32);
 log_cut!(k_batch2_d32_after_boundary, 33, 32, 1, 1, 2, T_BATCH2_D32_LEN, img_batch2_d32);
 log_cut!(k_batch2_d32_mid_padding, 26, 32, 1, 1, 2, T_BATCH2_D32_LEN, img_batch2_d32);
+log_cut!(e_whole_d40, -4, 40, 1, 1, 0, T_WHOLE_D40_LEN, img_whole_d40);
+log_cut!(e_split_d20, -4, 20, 1, 1, 0, T_SPLIT_D20_LEN, img_split_d20);
+log_cut!(e_two_d60, -4, 60, 2, 3, 1, T_TWO_D60_LEN, img_two_d60);
 log_cut!(k_whole_d40_last_byte, 21, 40, 1, 1, 0, T_WHOLE_D40_LEN, img_whole_d40);
 log_cut!(k_whole_d40_first_byte, 1, 40, 1, 1, 0, T_WHOLE_D40_LEN, img_whole_d40);
 log_cut!(k_whole_d40_empty, 0, 40, 1, 1, 0, T_WHOLE_D40_LEN, img_whole_d40);
@@ -561,7 +575,7 @@ fn native_shape_check(d: u64, lk: usize, lv: usize, second: u8, t: &[u8], cut_mo
     let mut p: Vec<u8> = (0..nv).map(|i| t[i] & 0x7f).collect();
     fix_timestamps(&mut p, lk, lv, second);
     let img = run_writer(d, lk, lv, second, &p).expect("the writer rejects the batches");
-    let cut = if cut_mode == -1 { img.len() } else if cut_mode == -2 { t[nv] as usize } else { cut_mode as usize };
+    let cut = if cut_mode == -1 || cut_mode == -4 { img.len() } else if cut_mode == -2 { t[nv] as usize } else { cut_mode as usize };
     if cut > img.len() {
         return;
     }
@@ -620,5 +634,5 @@ harness_list!(
     w_two_pad_d23, r_two_pad_d23, c_two_pad_d23, w_pad_d19, r_pad_d19, c_pad_d19, w_split_d26, r_split_d26, c_split_d26,
     w_batch2_d32, r_batch2_d32, c_batch2_d32, w_batch2_d60, r_batch2_d60, c_batch2_d60,
     k_batch2_d32_at_boundary, k_batch2_d32_before_boundary, k_batch2_d32_after_boundary, k_batch2_d32_mid_padding,
-    k_whole_d40_last_byte, k_whole_d40_first_byte, k_whole_d40_empty, k_split_d20_at_boundary, k_two_d60_between, k_two_d60_in_second,
+    e_whole_d40, e_split_d20, e_two_d60, k_whole_d40_last_byte, k_whole_d40_first_byte, k_whole_d40_empty, k_split_d20_at_boundary, k_two_d60_between, k_two_d60_in_second,
 );
